@@ -242,6 +242,18 @@ def size_profile(draw, tier):
     return mr, mt
 
 
+@st.composite
+def row_count(draw, lo, hi):
+    """0 and 1 rows stay reachable but most tables have several rows (non-trivial cases
+    need a qualifying and a non-qualifying pair)."""
+    k = draw(st.integers(0, 11))
+    if k == 0:
+        return draw(st.integers(lo, min(hi, max(lo, 1))))
+    if k <= 2:
+        return draw(st.integers(lo, hi))
+    return draw(st.integers(min(max(lo, 3), hi), hi))
+
+
 MISSING_PATTERNS = ["none", "left", "right", "both", "all", "lall", "rall"]
 
 
@@ -253,8 +265,8 @@ def two_tables(draw, tokcfg, tier, p_empty=1, missing=None, p_dup=1, max_extra=3
     words = draw(vocabulary(tokcfg))
     ww = _weighted(words)
     seeds = draw(st.lists(token_list(ww, mt, 1), min_size=1, max_size=3))
-    nl = draw(st.integers(min_rows, mr))
-    nr = draw(st.integers(min_rows, mr))
+    nl = draw(row_count(min_rows, mr))
+    nr = draw(row_count(min_rows, mr))
     if missing is None:
         missing = draw(st.sampled_from(["none", "none", "none", "left", "right", "both"]))
     pl = 3 if missing in ("left", "both") else 0
@@ -277,7 +289,7 @@ def present(vals):
 @st.composite
 def sim_threshold(draw, measure, tokcfg, lvals, rvals):
     """Threshold for JACCARD/COSINE/DICE/OVERLAP_COEFFICIENT in [1e-4, 1]."""
-    kind = draw(st.sampled_from(["pair", "pair", "pair", "grid", "grid", "edge"]))
+    kind = draw(st.sampled_from(["pair", "pair", "pair", "pair", "pair", "grid", "grid", "edge"]))
     li, ri = present(lvals), present(rvals)
     if kind == "pair" and li and ri:
         tok = oracle.Tok(tokcfg, True)
@@ -300,7 +312,7 @@ def sim_threshold(draw, measure, tokcfg, lvals, rvals):
             if 1e-4 <= t <= 1.0:
                 return float(t)
     if kind == "edge":
-        return draw(st.sampled_from([1.0, 1.0, 0.0001, 0.001, 0.01, 0.05, 0.9999]))
+        return draw(st.sampled_from([1.0, 1.0, 0.9999, 0.5, 0.0001, 0.01, 0.05]))
     return draw(st.integers(1, 100)) / 100.0
 
 
@@ -419,8 +431,8 @@ def ed_strings(draw, n, maxlen=12, p_missing=0, alphabets=("ab", "abc", "ab ", "
 def ed_tables(draw, tier, missing=None, max_extra=2):
     mr = 8 if tier == "quick" else draw(st.sampled_from([8, 8, 16]))
     ml = 12 if tier == "quick" else draw(st.sampled_from([12, 12, 20]))
-    nl = draw(st.integers(0, mr))
-    nr = draw(st.integers(0, mr))
+    nl = draw(row_count(0, mr))
+    nr = draw(row_count(0, mr))
     if missing is None:
         missing = draw(st.sampled_from(["none", "none", "none", "left", "right", "both"]))
     alpha = draw(st.sampled_from(["ab", "abc", "ab ", "abé"]))
